@@ -16,6 +16,10 @@ ap.add_argument('-v', action='store_true')
 a = ap.parse_args()
 props = [p for p in a.props.split(',') if p] or [f'C{i:02d}' for i in range(1, 21)]
 twins = [t for t in TWINS if not a.only or t['name'].split('-')[0] in a.only.split(',')]
+# twins written by independent sub-agents: selftest/agent_twins/<id>/patch.diff
+for d in sorted((V / 'selftest' / 'agent_twins').glob('*')):
+    if (d / 'patch.diff').exists() and (not a.only or d.name in a.only.split(',') or 'agent' in a.only.split(',')):
+        twins.append({'name': d.name, 'patch': d / 'patch.diff', 'edits': []})
 base = pathlib.Path(tempfile.mkdtemp(prefix='twins.', dir='/dev/shm' if os.path.isdir('/dev/shm') else None))
 
 
@@ -23,6 +27,10 @@ def one(t):
     wt = base / t['name']
     wt.mkdir()
     shutil.copytree(REPO / 'excel2pycl', wt / 'excel2pycl', ignore=shutil.ignore_patterns('__pycache__'))
+    if t.get('patch'):
+        r = subprocess.run(['patch', '-p1', '-s', '-f', '-i', str(t['patch'])], cwd=wt, capture_output=True, text=True)
+        if r.returncode != 0:
+            return t['name'], None, 'patch does not apply'
     for files, old, new in t['edits']:
         for f in ([files] if isinstance(files, str) else files):
             p = wt / f
